@@ -4,7 +4,7 @@
 holds).  Each is applied to a scratch git worktree of /repo's HEAD under /tmp and ALL
 quick checks are run against it; any VIOLATION or harness error is a false alarm of the
 machinery (or shows that the refactoring is not as benign as its author argued - decided by
-reading the report).   usage: tools/benign.py [ID ...]  -> /verif/benign/RESULTS.md
+reading the report).   usage: tools/benign.py [--checks=C10,C19] [ID ...]  -> /verif/benign/RESULTS.md
 """
 import json
 import os
@@ -21,6 +21,8 @@ ALL = ['C02', 'C09', 'C10', 'C11', 'C12', 'C13', 'C19']
 
 def main():
     ids = [a for a in sys.argv[1:] if not a.startswith('--')]
+    only = [a.split('=')[1].split(',') for a in sys.argv[1:] if a.startswith('--checks=')]
+    checks = only[0] if only else ALL
     store = os.path.join(BEN, 'results.json')
     db = json.load(open(store)) if os.path.exists(store) else {}
     for bid in sorted(os.listdir(BEN)):
@@ -39,7 +41,7 @@ def main():
                 print(bid, 'PATCH-FAILED', p.stderr[-200:])
                 continue
             res = db.get(bid, {}).get('checks', {})
-            for prop in ALL:
+            for prop in checks:
                 env = dict(os.environ, VERIF_REPO=tmp, VERIF_SEED='0')
                 t0 = time.time()
                 q = subprocess.run([os.path.join(VERIF, 'check'), prop, '--tier', 'quick',
